@@ -895,3 +895,17 @@ def _closure_of_role(crate, r):
     if isinstance(r, tuple) and r[0] == "fnconst":
         return str(r[1])
     return None
+
+
+def result_sinks(b, out_param):
+    """call sites that add to the function's result collection: extend/push/append on the `&mut Vec` out-parameter, or on
+    the local collection the function returns"""
+    ret = strip_role(b.role_of_local(0))
+    out = []
+    for c in b.calls:
+        if b.blocks[c.bb]["cleanup"] or not c.callee or c.callee.name not in ("extend", "push", "append", "extend_from_slice") or not c.args:
+            continue
+        r = strip_role(b.role_of_operand(c.args[0]))
+        if r == ("param", out_param) or (isinstance(ret, tuple) and ret[0] == "call" and ret[1] in ("new", "default", "with_capacity") and r == ret):
+            out.append(c)
+    return out
